@@ -119,6 +119,17 @@ type VehicleID struct {
 	LicensePlate string
 }
 
+// less defines an ordering on vehicle ids so that parsed vehicles have a consistent order.
+func (v1 VehicleID) less(v2 VehicleID) bool {
+	if v1.ID != v2.ID {
+		return v1.ID < v2.ID
+	}
+	if v1.Label != v2.Label {
+		return v1.Label < v2.Label
+	}
+	return v1.LicensePlate < v2.LicensePlate
+}
+
 type Position struct {
 	// Degrees North, in the WGS-84 coordinate system.
 	Latitude *float32
@@ -371,6 +382,10 @@ func ParseRealtime(content []byte, opts *ParseRealtimeOptions) (*Realtime, error
 		}
 		result.Vehicles = append(result.Vehicles, *vehicle)
 	}
+	// Map iteration order is random: sort so that the result is deterministic.
+	sort.Slice(result.Vehicles, func(i, j int) bool {
+		return result.Vehicles[i].GetID().less(result.Vehicles[j].GetID())
+	})
 	result.Vehicles = append(result.Vehicles, vehiclesWithNoID...)
 	return &result, nil
 }
